@@ -136,7 +136,11 @@ def _flatten(oplist):
 
 def gen_strategy(rng):
     r = rng.random()
-    if r < 0.12:
+    if r < 0.10:
+        # right after a pool acquire / release returned (scratch objects must stay private to the in-flight operation)
+        return {'kind': 'afterhot', 'hot': ['utilcachepool'], 'window': rng.choice([1, 2, 3, 5]),
+                'p_after': rng.choice([0.2, 0.5, 1.0]), 'p_hot': rng.choice([0.0, 0.05]), 'p_cold': rng.choice([0.0, 0.001, 0.005])}
+    if r < 0.20:
         return {'kind': 'hotpct', 'points': sorted(rng.sample(range(1, 400), rng.choice([1, 2, 3, 4]))), 'hot': HOT,
                 'p_cold': rng.choice([0.0, 0.001, 0.005])}
     if r < 0.35:
@@ -176,6 +180,10 @@ def generate(rng, run, tier):
             threads.append([{'op': rng.choice(['is_bearable', 'die', 'decor_call']), 'h': h, 'x': o, 'conf': None, 'pos': 'param'}])
         strategy = {'kind': 'hotpct', 'points': sorted(rng.sample(range(1, 60), rng.choice([2, 3, 4]))),
                     'hot': ['utilcachepool.py'], 'p_cold': rng.choice([0.0005, 0.001, 0.002])}
+        if rng.random() < 0.5:
+            # ... or concentrated on the windows right after a pool call returned
+            strategy = {'kind': 'afterhot', 'hot': ['utilcachepool'], 'window': rng.choice([1, 2, 3]),
+                        'p_after': rng.choice([0.1, 0.25, 0.5]), 'p_hot': 0.0, 'p_cold': rng.choice([0.0, 0.0005, 0.001])}
     avoid_cw = rng.random() < 0.8
     if avoid_cw:
         # known finding C15-catch-warnings: warnings.catch_warnings is process-global. Most runs steer around it:
@@ -222,11 +230,13 @@ def _run_op(op, ctx):
             ctx['typehints'].append((hint, th))
             m = op['mode']
             if m == 'children':
+                # (identity of the child wrappers is left to the end-of-run singleton check: comparing two TypeHint() calls
+                # inside one operation would span two API calls, between which another thread may legitimately clear the
+                # caches by redefining a same-named decorated class)
                 kids = list(th)
-                again = list(door.TypeHint(hint))
                 for c in kids:
                     ctx['typehints'].append((c.hint, c))
-                out = ['ok', [len(th), [type(c).__name__ for c in kids], len(kids) == len(again) and all(a is b for a, b in zip(kids, again))]]
+                out = ['ok', [len(th), [type(c).__name__ for c in kids]]]
             elif m == 'cmp':
                 other = door.TypeHint(H.build_hint(op['b']))
                 out = ['ok', [th == other, other == th, th <= other, other <= th, th < other, th.is_subhint(other), other.is_superhint(th)]]
